@@ -12,7 +12,7 @@ package vm
 // Verify lies in [0, gasLimit].
 
 //verif:property C07
-//verif:bound step lemma: every opcode 0x00..0xff (one obligation per 16 opcodes x stack depth), data stack of 0..4 items and alt stack of 0..1 items, item length symbolic 0..3 bytes; additionally CHECKPREDICATE, PICK and ROLL with a top operand of 0..9 bytes (CHECKPREDICATE in the quick tier: exactly 8 bytes) over items of 0..1 byte, so that 64-bit operands with the top bit set are reached (a panic inside step is an outcome there: Verify recovers it) / 0..9 and 32..33 (thorough), instruction data <= 5 bytes, runLimit any value in [0, 2^20] (consensus maximum is 300000; [0, 2^15] for opcodes 0xa0..0xaf so that CHECKMULTISIG key counts stay enumerable; MUL/DIV/MOD range 0x90..0x9f with two or more operands: operand length <= 1 byte)
+//verif:bound step lemma: every opcode 0x00..0xff (one obligation per 16 opcodes x stack depth), data stack of 0..4 items and alt stack of 0..1 items, item length symbolic 0..3 bytes; additionally CHECKPREDICATE, PICK, ROLL, CHECKMULTISIG (key count) and SUBSTR/LEFT/RIGHT (sizes) with a top operand of 0..9 bytes (CHECKPREDICATE in the quick tier: exactly 8 bytes) over items of 0..1 byte, so that 64-bit operands with the top bit set are reached (a panic inside step is an outcome there: Verify recovers it) / 0..9 and 32..33 (thorough), instruction data <= 5 bytes, runLimit any value in [0, 2^20] (consensus maximum is 300000; [0, 2^15] for opcodes 0xa0..0xaf so that CHECKMULTISIG key counts stay enumerable; MUL/DIV/MOD range 0x90..0x9f with two or more operands: operand length <= 1 byte)
 //verif:bound Verify end to end: a menu of 11 one/two-instruction programs (thorough: every 1-byte program), <= 2 arguments of <= 2 bytes, gas limit in [0, 2^12]
 //verif:assume CHECKPREDICATE: the child VM's run() is replaced for the solver by a havoc stub constrained by this same lemma (0 <= runLimit' and runLimit' + stack cost' <= Phi_child); well-founded because entering a child costs 256 - 192 = 64 non-refundable gas
 //verif:assume hash functions and ed25519.Verify are uninterpreted; context callbacks (TxSigHash, CheckOutput) return arbitrary values
@@ -23,7 +23,7 @@ package vm
 //verif:obligation fn=VerifC07Step args=0,15,2,3,20;16,31,2,3,20;32,47,2,3,20;48,63,2,3,20;64,79,2,3,20;80,95,2,3,20;96,111,2,3,20;112,127,2,3,20;128,143,2,3,20;144,159,2,1,20;160,175,2,3,15;176,191,2,3,20;192,207,2,3,20;208,223,2,3,20;224,239,2,3,20;240,255,2,3,20 loops=300 secs=900 validate=6
 //verif:obligation fn=VerifC07Step args=0,15,3,2,20;16,31,3,2,20;32,47,3,2,20;48,63,3,2,20;64,79,3,2,20;80,95,3,2,20;96,111,3,2,20;112,127,3,2,20;128,143,3,2,20;144,159,3,1,20;160,175,3,2,15;176,191,3,2,20;192,207,3,2,20;208,223,3,2,20;224,239,3,2,20;240,255,3,2,20 loops=300 secs=900
 //verif:obligation fn=VerifC07StepWide args=192,192,3,20,8 loops=300 secs=900 nopanic=off
-//verif:obligation fn=VerifC07StepWide args=121,122,2,20,0;121,122,3,20,0 loops=300 secs=900 nopanic=off validate=6
+//verif:obligation fn=VerifC07StepWide args=121,122,2,20,0;121,122,3,20,0;173,173,2,15,8;127,129,2,15,8;127,129,3,15,8 loops=300 secs=900 nopanic=off validate=6
 //verif:obligation fn=VerifC07StepWide args=192,192,3,20,0 loops=300 secs=3000 nopanic=off tier=thorough
 //verif:obligation fn=VerifC07Prologue args=2,0 validate=20 nooverride=verifC07ChildRun
 //verif:obligation fn=VerifC07Prologue args=1,1 nooverride=verifC07ChildRun tier=thorough secs=3000 paths=2000000
